@@ -19,6 +19,10 @@ def nonzero_model(nm, args, t, path):
     r = skip_logging(nm, args, t, path)
     if r is not None:
         return r
+    from symex import option_tests
+    r = option_tests(nm, args, t, path)
+    if r is not None:
+        return r
     if re.search(r'^std::num::NonZero::<T>::new$', nm) and args:
         x = args[0]
         for term, c in path.conds:
